@@ -88,6 +88,14 @@ def render(sites, initial=INITIAL) -> str:
     out.append(f"        B = {_lit(initial['K0.In.B'])}\n")
     for k, s in enumerate(sites):
         op, lam = s["op"], s["lam"]
+        if s.get("scope") == "module":
+            # a call site at module level: its free names are module globals (there, `c1` is
+            # the module global that the closure cells of the other sites hide)
+            out.append(f"def gsite_{k}(s):\n")
+            out.append(f"    return s.{op}({lam})\n")
+            out.append(f"def gref_{k}():\n")
+            out.append(f"    return ({lam})\n")
+            continue
         out.append(f"def make_site_{k}():\n")
         out.append(f"    c0 = {_lit(initial['c0'])}\n")
         out.append(f"    c1 = {_lit(initial['c1'])}\n")
@@ -135,7 +143,13 @@ class ClientProgram:
         self.mod = types.ModuleType(f"client_{run_tag}")
         self.mod.__file__ = self.filename
         exec(compile(self.src, self.filename, "exec"), self.mod.__dict__)
-        self.fns = [getattr(self.mod, f"make_site_{k}")() for k in range(len(sites))]
+        def _noop(n, v=None):
+            return None
+
+        self.fns = [
+            (getattr(self.mod, f"gsite_{k}"), getattr(self.mod, f"gref_{k}"), _noop, _noop)
+            if s.get("scope") == "module" else getattr(self.mod, f"make_site_{k}")()
+            for k, s in enumerate(sites)]
         self.bound = {n: True for n in ALL_NAMES}
         self.value = {n: list(initial[n]) for n in ALL_NAMES}
         self.touches = 0
